@@ -3,8 +3,11 @@
 Decides the clause "no test fails because of names that are not imported": every global name
 an emitted template refers to (`pytest`, `sys`, `random`, exception classes, SUT names) has its
 import statement emitted on every path on which the template can be emitted, and assertions
-that did not hold when replayed are removed whatever the kind of failure.  That the tests pass
-is not decided.
+that did not hold when replayed are removed whatever the kind of failure; the enum classes that
+rendered assertions name bare (`Color.RED`) are collected - collector found by behaviour and
+interpreted over nested values - for every assertion and fed to the emitted from-imports; the
+public-name import lists attributes of the module only and never the alias; the exception types to
+import are accumulated over all test cases.  That the tests pass is not decided.
 """
 
 from __future__ import annotations
